@@ -333,6 +333,27 @@ func longLengthFields() {
 	ctx.NontrivialN(int64(derived))
 }
 
+// textContents: for every text-carrying meta type, every value of the first
+// two payload bytes (byte-order marks, status-like bytes, NUL, high bit ...)
+// with payloads of 2..5 bytes, well-formed length field.
+func textContents(part, parts int) {
+	types := []byte{0x01, 0x02, 0x03, 0x04, 0x05, 0x06, 0x07, 0x08, 0x09, 0x7F}
+	for a := part; a < 256; a += parts {
+		for b := 0; b < 256; b++ {
+			for _, typ := range types {
+				for n := 2; n <= 5; n++ {
+					m := []byte{0xFF, typ, byte(n), byte(a), byte(b)}
+					for i := 2; i < n; i++ {
+						m = append(m, byte(0x61+i))
+					}
+					judgeSMF(m)
+				}
+			}
+		}
+	}
+	ctx.NontrivialN(int64(derived))
+}
+
 func constructed() {
 	texts := []string{"", "a", string(make([]byte, 127)), string(make([]byte, 128)), string(make([]byte, 20000))}
 	var ms []smf.Message
@@ -371,6 +392,7 @@ func main() {
 	ctx.Jobs("meta-shapes", 16, func(j int) { metaShapes(j) })
 	ctx.Jobs("constructed", 1, func(int) { constructed() })
 	ctx.Jobs("long-length-fields", 1, func(int) { longLengthFields() })
+	ctx.Jobs("text-contents", 16, func(j int) { textContents(j, 16) })
 	ctx.Sample(map[string]interface{}{"bytes": "FF 51 03", "as": "smf.Message", "expect": "meta tempo type, GetMetaTempo must not panic on the missing payload"})
 	ctx.Sample(map[string]interface{}{"bytes": "F2 01", "as": "midi.Message", "expect": "system common; GetSPP rejects (length), no other accessor accepts"})
 	ctx.Guard(ctx.NontrivialCount() > 100000, "too few strings accepted by exactly one accessor: %d", ctx.NontrivialCount())
